@@ -3,6 +3,7 @@
 -/
 import RaftWal.Proofs.SegmentTorn
 import RaftWal.Proofs.WalRefine
+import RaftWal.Proofs.CrashCorollaries
 namespace RaftWal.C03
 open RaftWal
 
@@ -45,5 +46,24 @@ theorem usable_after_reopen (cfg : WalCfg) (hcfg : cfg.newSegCodec = cfg.codecId
   · exact hops op h
   · subst h; trivial
   · exact hmore op h
+
+/-! ## WAL level: the durability protocol (Model/Crash.lean — meta commits, file creation, rotation, truncation, Open,
+    tied to wal.go by the crash suite's action-by-action and image-by-image correspondence).  `Crash.QuiescentS` is
+    the invariant of a live process between calls; it holds after Open on an empty directory, after every completed
+    call and after every recovery (`Crash.init_quiescentS`, `Crash.call_refines_corrected`, `Crash.crash_safe_corrected`). -/
+
+/-- **recovery always terminates in a usable log**: from the image of any crash inside any call, after any number of
+    recoveries cut short by further crashes, Open succeeds, and the state it leaves accepts every legal call with the
+    specified effect (and is covered again by the crash theorems) -/
+theorem recovery_usable_any_crash (d : Crash.Disk) (hq : Crash.QuiescentS d) (op : Crash.Op) (hok : op.ok d) (k : Nat)
+    (c : Crash.CrashKind) (d1 : Crash.Disk) (hr : Crash.ReachRec (Crash.crashAfter d (Crash.prog d op) k c) d1) :
+    ∃ d', Crash.openResult d1 = some d' ∧ Crash.QuiescentS d' ∧
+      ∀ op', op'.ok d' → Crash.QuiescentS (d'.applyAll (Crash.prog d' op')) ∧
+        Crash.absLog (d'.applyAll (Crash.prog d' op')) = Crash.specApply (Crash.absLog d') op' :=
+  Crash.recovery_usable d hq op hok k c d1 hr
+
+/-- the invariant the theorem needs is not vacuous: without it Open can fail (a state the executable invariant
+    `quiescentB` alone admits, found by the prover; no run reaches it) -/
+theorem open_can_fail_outside_invariant : ¬ Crash.open_never_fails_stmt := Crash.open_never_fails_refuted
 
 end RaftWal.C03
